@@ -9,7 +9,8 @@ CHECKS = {
     'C03': ('Lean 4 theorems over a hand-written model of the line index / slicing code + differential correspondence with pymap.mime and wire-level monitors',
             'C03_raw, C03_size, C03_header_text, C03_partial are proved in Lean for every byte string (no length bound) about the model of MessageContent.parse / get_raw / _get_partial; '
             'the model is tied to /repo on every run by diffing it with MessageContent.parse on generated and exhaustively enumerated byte strings, and the property itself is monitored on the '
-            'wire (APPEND then every FETCH form, COPY, MOVE) on the dict and maildir backends.',
+            'wire (APPEND then every FETCH form, COPY, MOVE - one message and several at once, every COPYUID pair followed to the bytes) on the dict and maildir backends. C03_copyuid_pairs: copies made in '
+            'ascending UID order are exactly the pairs a client reads off COPYUID (both sides sorted independently); CopyUid is diffed with the model for copies made in any order.',
             'Trusted: Lean kernel; axioms propext, Classical.choice, Quot.sound; the correspondence harness. Not modelled: the email package (content-type / boundary decisions), nested part '
             'selection (_get_subpart) and BODYSTRUCTURE sizes are monitored on the wire only. Known findings D5, D6, D35 (see known_findings.json).',
             'DESIGN.md section 6 C03'),
@@ -17,8 +18,8 @@ CHECKS = {
             'C01_coherent, C01_fork_sync, C01_hide_no_expunge, C01_fetch_labels and C01_system (any number of sessions, any operation list) are proved in Lean about the model of '
             'SynchronizedMessages/_Frozen/_compare and the closed System; merge_same_message / seq_stable_without_expunge justify the repaired FETCH merge. The model (Server.lean composes '
             'those functions) is diffed per command against 1-4 real IMAP connections on random interleaved programs, and a shadow client applies every untagged response of every session.',
-            'Trusted: Lean kernel, axioms propext/Classical.choice/Quot.sound, the harness. Interleavings are command-atomic on the real server (what asyncio produces on the dict backend); '
-            'finer ones are covered by the System theorem only. Server.lean (glue composing the proved functions) is validated by the correspondence, not proved. WeakSet/GC behaviour assumed.',
+            'Trusted: Lean kernel, axioms propext/Classical.choice/Quot.sound, the harness. Interleavings are command-atomic on the real server (what asyncio produces on the dict backend), plus '
+            'a family interleaved at the lock boundaries of the backend (park before every acquisition and after every release of a write lock) under a watching client; finer ones are covered by the System theorem only. Server.lean (glue composing the proved functions) is validated by the correspondence, not proved. WeakSet/GC behaviour assumed.',
             'DESIGN.md section 6 C01'),
     'C02': ('Lean 4 invariants over the change-log model (_ModSequenceMapping) and convergence theorem + command-level differential correspondence',
             'C02_log_inv, C02_log_complete and C02_noop_converges (every history, every session) are proved in Lean; the real server is diffed against the model on mutation-heavy multi-session '
